@@ -14,6 +14,10 @@ import warnings
 import numpy as np
 from pynndescent import distances as D
 from harness import refmetrics as R
+import numba
+# two worker threads: the only parallel kernel reached from here (sinkhorn's K_from_cost, a few dozen
+# entries) costs ~85 ms per call in barrier waits with 16 threads on a loaded machine, 0.02 ms with 2
+numba.set_num_threads(min(2, numba.get_num_threads()))
 
 F32MAX = R.F32MAX
 DIMS_REAL = [1, 2, 3, 5, 8, 16, 33, 64]
@@ -222,7 +226,7 @@ def normalise(v):
 def pairs_for(name, rng, tier, search):
     """(kind, x, y, kwds) for one public name; fixed sizes per tier."""
     s = R.SPEC[name]
-    n = 12 if tier == "quick" else 192
+    n = 12 if tier == "quick" else 384
     if search:
         n *= 3
     exh = 4 if tier == "quick" else 5
@@ -339,9 +343,15 @@ def check_pair(rep, name, kind, x, y, kw):
                               "f(%s,%s)=%r, expected %r" % (tag, tag, v, s["self_value"]), case); ok = False
                 break
     if not undefined:
-        with warnings.catch_warnings():
-            warnings.simplefilter("ignore")
-            r = s["ref"](x, y, **kw)
+        try:
+            with warnings.catch_warnings():
+                warnings.simplefilter("ignore")
+                r = s["ref"](x, y, **kw)
+        except Exception as e:                   # the reference itself failed (e.g. LP solver status): not a verdict
+            res.count("reference-error")
+            if len(res.notes) < 8:
+                res.notes.append("reference failed for %s: %s: %s" % (name, type(e).__name__, e))
+            r = None
         if r is not None:
             res.count("checked:value")
             band = s["band"](x, y, kw, scale) if s["band"] is not None else None
